@@ -114,6 +114,9 @@ func nativeRun(repo, pkgPath string, hs []*HarnessFile, prelude string, replayPa
 	for _, h := range hs {
 		repl[filepath.Join(dir, "zz_vx_"+filepath.Base(h.Path))] = h.Path
 		entries = append(entries, h.Entries...)
+		for _, o := range h.Overlays {
+			repl[filepath.Join(repo, o[0])] = o[1]
+		}
 	}
 	var tb strings.Builder
 	fmt.Fprintf(&tb, "package %s\n\nimport (\n\t\"os\"\n\t\"strings\"\n\t\"testing\"\n)\n\nfunc TestVXReplay(t *testing.T) {\n\tentries := map[string]func(){\n", hs[0].PkgName)
